@@ -147,6 +147,12 @@ Lemma good_api_set_attr ph a v now : good (api_set_attr ph a v now).
 Proof. unfold api_set_attr. good_tac. Qed.
 Lemma good_api_force ph c t : good (api_force ph c t).
 Proof. unfold api_force. good_tac. Qed.
+Lemma good_api_find ph l f : good (api_find ph l f).
+Proof. unfold api_find. good_tac. Qed.
+Lemma good_api_parent ph w : good (api_parent ph w).
+Proof. unfold api_parent. good_tac. Qed.
+Lemma good_api_referring ph c : good (api_referring ph c).
+Proof. unfold api_referring. good_tac. Qed.
 Lemma good_api_probe ph c : good (api_probe ph c).
 Proof. unfold api_probe. good_tac. Qed.
 Lemma good_api_probe_link ph l : good (api_probe_link ph l).
@@ -176,7 +182,7 @@ Definition op_prog (o : op) (now : Z) : option (M N + M unit) :=
   | OSetLink p r x => Some (inr (api_set_link p r x now))
   | OSetAttr p a v => Some (inr (api_set_attr p a v now))
   | OForce p c t => Some (inr (api_force p c t))
-  | OProbe _ _ | OProbeLink _ _ | OSetAuto _ | OReopen _ => None
+  | OFind _ _ _ | OParent _ _ | OReferring _ _ | OProbe _ _ | OProbeLink _ _ | OSetAuto _ | OReopen _ => None
   end.
 
 Theorem ro_immutable o now s : ro s = true -> is_reopen o = false ->
@@ -191,7 +197,8 @@ Proof.
               first [ apply good_api_create | apply good_api_create_mtag | apply good_api_create_feature
                     | apply good_api_lookup | apply good_api_lookup_link | apply good_api_delete
                     | apply good_api_append | apply good_api_remove | apply good_api_set_link
-                    | apply good_api_set_attr | apply good_api_force | apply good_api_probe | apply good_api_probe_link ];
+                    | apply good_api_set_attr | apply good_api_force | apply good_api_probe | apply good_api_probe_link
+                    | apply good_api_find | apply good_api_parent | apply good_api_referring ];
             destruct G as [_ [G _]]; apply G; exact Hro
         end.
   reflexivity.
@@ -237,6 +244,9 @@ Proof.
   - apply TwinU; [apply good_api_set_link | exact E].
   - apply TwinU; [apply good_api_set_attr | exact E].
   - apply TwinU; [apply good_api_force | exact E].
+  - apply TwinT; [apply good_api_find | exact E].
+  - apply TwinT; [apply good_api_parent | exact E].
+  - apply TwinT; [apply good_api_referring | exact E].
   - apply TwinT; [apply good_api_probe | exact E].
   - apply TwinT; [apply good_api_probe_link | exact E].
   - injection E as <- <-. eexists. split; reflexivity.
